@@ -5,7 +5,7 @@
 #define VF_E extern "C"
 // The family is lowered in three parts (family.json variants, -DVF_PART=n) to keep each translation unit small:
 //   0 span / array   1 extents   3 layout_left/right mappings   4 layout_stride mapping   2 mdspan over left/right   5 mdspan over stride
-//   6 layout_transpose / submdspan_extents
+//   6 layout_transpose / submdspan_extents   7 conversion matrix of the layout_left/right mappings   8 conversion matrix of mdspan
 #ifndef VF_PART
 #define VF_PART 0
 #endif
@@ -20,7 +20,7 @@ using SD = etl::span<int>;
 using S4 = etl::span<int, 4>;
 using A4 = etl::array<int, 4>;
 using A0 = etl::array<int, 0>;
-template <typename S> static auto put(S const& r, int** d, size_t* n) -> size_t { *d = r.data(); *n = r.size(); return S::extent; }
+template <typename S, typename P> static auto put(S const& r, P** d, size_t* n) -> size_t { *d = r.data(); *n = r.size(); return S::extent; }
 
 VF_E void sd_default(SD* out) { new (out) SD(); }
 VF_E void sd_ctor_ptr_n(SD* out, int* p, size_t n) { new (out) SD(p, n); }
@@ -39,41 +39,96 @@ VF_E size_t s0_ctor_array(int** d, size_t* n, A0& a) { auto s = etl::span<int, 0
 VF_E size_t ctad_carr(int** d, size_t* n, int (&a)[4]) { auto s = etl::span(a); return put(s, d, n); }
 VF_E size_t ctad_array(int** d, size_t* n, A4& a) { auto s = etl::span(a); return put(s, d, n); }
 
-#define SPAN_OBS(P, S)                                                                                                 \
-    VF_E int* P##_data(S const& s) { return s.data(); }                                                                \
+#define SPAN_OBS(P, S, E)                                                                                                \
+    VF_E E* P##_data(S const& s) { return s.data(); }                                                                \
     VF_E size_t P##_size(S const& s) { return s.size(); }                                                              \
     VF_E size_t P##_size_bytes(S const& s) { return s.size_bytes(); }                                                  \
     VF_E bool P##_empty(S const& s) { return s.empty(); }                                                              \
-    VF_E int* P##_begin(S const& s) { return s.begin(); }                                                              \
-    VF_E int* P##_end(S const& s) { return s.end(); }                                                                  \
-    VF_E int* P##_rbegin_base(S const& s) { return s.rbegin().base(); }                                                \
-    VF_E int* P##_rend_base(S const& s) { return s.rend().base(); }                                                    \
-    VF_E int* P##_front(S const& s) { return &s.front(); }                                                             \
-    VF_E int* P##_back(S const& s) { return &s.back(); }                                                               \
-    VF_E int* P##_index(S const& s, size_t i) { return &s[i]; }                                                        \
-    VF_E size_t P##_first_n(S const& s, size_t c, int** d, size_t* n) { return put(s.first(c), d, n); }                \
-    VF_E size_t P##_last_n(S const& s, size_t c, int** d, size_t* n) { return put(s.last(c), d, n); }                  \
-    VF_E size_t P##_subspan_oc(S const& s, size_t o, size_t c, int** d, size_t* n) { return put(s.subspan(o, c), d, n); } \
-    VF_E size_t P##_subspan_o(S const& s, size_t o, int** d, size_t* n) { return put(s.subspan(o), d, n); }
-SPAN_OBS(sd, SD)
-SPAN_OBS(s4, S4)
+    VF_E E* P##_begin(S const& s) { return s.begin(); }                                                              \
+    VF_E E* P##_end(S const& s) { return s.end(); }                                                                  \
+    VF_E E* P##_rbegin_base(S const& s) { return s.rbegin().base(); }                                                \
+    VF_E E* P##_rend_base(S const& s) { return s.rend().base(); }                                                    \
+    VF_E E* P##_front(S const& s) { return &s.front(); }                                                             \
+    VF_E E* P##_back(S const& s) { return &s.back(); }                                                               \
+    VF_E E* P##_index(S const& s, size_t i) { return &s[i]; }                                                        \
+    VF_E size_t P##_first_n(S const& s, size_t c, E** d, size_t* n) { return put(s.first(c), d, n); }                \
+    VF_E size_t P##_last_n(S const& s, size_t c, E** d, size_t* n) { return put(s.last(c), d, n); }                  \
+    VF_E size_t P##_subspan_oc(S const& s, size_t o, size_t c, E** d, size_t* n) { return put(s.subspan(o, c), d, n); } \
+    VF_E size_t P##_subspan_o(S const& s, size_t o, E** d, size_t* n) { return put(s.subspan(o), d, n); }
+SPAN_OBS(sd, SD, int)
+SPAN_OBS(s4, S4, int)
 // as_bytes / as_writable_bytes: only span<T> (dynamic); for a static extent `return {ptr, n}` picks the explicit constructor -> ill-formed (span.hpp:358, 373)
 VF_E size_t sd_as_bytes(SD const& s, unsigned char const** d, size_t* n) { auto r = etl::as_bytes(s); *d = reinterpret_cast<unsigned char const*>(r.data()); *n = r.size(); return decltype(r)::extent; }
 VF_E size_t sd_as_wbytes(SD const& s, unsigned char** d, size_t* n) { auto r = etl::as_writable_bytes(s); *d = reinterpret_cast<unsigned char*>(r.data()); *n = r.size(); return decltype(r)::extent; }
-#define SPAN_T(P, S, C) \
-    VF_E size_t P##_first_##C(S const& s, int** d, size_t* n) { return put(s.template first<C>(), d, n); } \
-    VF_E size_t P##_last_##C(S const& s, int** d, size_t* n) { return put(s.template last<C>(), d, n); } \
-    VF_E size_t P##_sub_##C(S const& s, int** d, size_t* n) { return put(s.template subspan<C>(), d, n); }
-SPAN_T(sd, SD, 0) SPAN_T(sd, SD, 1) SPAN_T(sd, SD, 2) SPAN_T(sd, SD, 4)
-SPAN_T(s4, S4, 0) SPAN_T(s4, S4, 1) SPAN_T(s4, S4, 2) SPAN_T(s4, S4, 4)
-#define SPAN_T2(P, S, O, C) VF_E size_t P##_sub_##O##_##C(S const& s, int** d, size_t* n) { return put(s.template subspan<O, C>(), d, n); }
-SPAN_T2(sd, SD, 0, 0) SPAN_T2(sd, SD, 0, 2) SPAN_T2(sd, SD, 1, 2) SPAN_T2(sd, SD, 2, 1) SPAN_T2(sd, SD, 4, 0)
-SPAN_T2(s4, S4, 0, 0) SPAN_T2(s4, S4, 0, 4) SPAN_T2(s4, S4, 1, 2) SPAN_T2(s4, S4, 1, 3) SPAN_T2(s4, S4, 4, 0) SPAN_T2(s4, S4, 2, 1)
+#define SPAN_T(P, S, C, E) \
+    VF_E size_t P##_first_##C(S const& s, E** d, size_t* n) { return put(s.template first<C>(), d, n); } \
+    VF_E size_t P##_last_##C(S const& s, E** d, size_t* n) { return put(s.template last<C>(), d, n); } \
+    VF_E size_t P##_sub_##C(S const& s, E** d, size_t* n) { return put(s.template subspan<C>(), d, n); }
+SPAN_T(sd, SD, 0, int) SPAN_T(sd, SD, 1, int) SPAN_T(sd, SD, 2, int) SPAN_T(sd, SD, 4, int)
+SPAN_T(s4, S4, 0, int) SPAN_T(s4, S4, 1, int) SPAN_T(s4, S4, 2, int) SPAN_T(s4, S4, 4, int)
+#define SPAN_T2(P, S, O, C, E) VF_E size_t P##_sub_##O##_##C(S const& s, E** d, size_t* n) { return put(s.template subspan<O, C>(), d, n); }
+SPAN_T2(sd, SD, 0, 0, int) SPAN_T2(sd, SD, 0, 2, int) SPAN_T2(sd, SD, 1, 2, int) SPAN_T2(sd, SD, 2, 1, int) SPAN_T2(sd, SD, 4, 0, int)
+SPAN_T2(s4, S4, 0, 0, int) SPAN_T2(s4, S4, 0, 4, int) SPAN_T2(s4, S4, 1, 2, int) SPAN_T2(s4, S4, 1, 3, int) SPAN_T2(s4, S4, 4, 0, int) SPAN_T2(s4, S4, 2, 1, int)
 
 using S0 = etl::span<int, 0>;
 VF_E int* s0_front(S0 const& s) { return &s.front(); }
 VF_E int* s0_back(S0 const& s) { return &s.back(); }
 VF_E int* s0_index(S0 const& s, size_t i) { return &s[i]; }
+
+// ------------------------------------------------------------------ conversions between differently-parameterised spans
+// span<U,N> -> span<T,M> ([span.cons]/20: data() == s.data(), size() == s.size()) over the element types int / int const / short / short const and
+// every combination of dynamic / static extent; the const and the short instantiations are separate function bodies and get their own observers
+using CSD = etl::span<int const>;
+using CS4 = etl::span<int const, 4>;
+using HD  = etl::span<short>;
+using H4  = etl::span<short, 4>;
+using CHD = etl::span<short const>;
+using CH4 = etl::span<short const, 4>;
+using AH4 = etl::array<short, 4>;
+#define SPAN_CONV(name, D, S) VF_E void name(D* out, S const& s) { new (out) D(s); }
+SPAN_CONV(csd_from_sd, CSD, SD) SPAN_CONV(csd_from_s4, CSD, S4) SPAN_CONV(cs4_from_sd, CS4, SD) SPAN_CONV(cs4_from_s4, CS4, S4)
+SPAN_CONV(csd_from_csd, CSD, CSD) SPAN_CONV(csd_from_cs4, CSD, CS4) SPAN_CONV(cs4_from_csd, CS4, CSD) SPAN_CONV(cs4_from_cs4, CS4, CS4)
+SPAN_CONV(hd_from_hd, HD, HD) SPAN_CONV(hd_from_h4, HD, H4) SPAN_CONV(h4_from_hd, H4, HD) SPAN_CONV(h4_from_h4, H4, H4)
+SPAN_CONV(chd_from_hd, CHD, HD) SPAN_CONV(chd_from_h4, CHD, H4) SPAN_CONV(ch4_from_hd, CH4, HD) SPAN_CONV(ch4_from_h4, CH4, H4)
+VF_E void csd_implicit_sd(CSD* out, SD const& s) { CSD c = s; *out = c; }   // copy-initialisation + assignment
+VF_E void csd_implicit_s4(CSD* out, S4 const& s) { CSD c = s; *out = c; }
+// [span.cons] constraints / explicit-ness of the converting constructor
+VF_E unsigned span_conv_traits()
+{
+    return unsigned(etl::is_constructible_v<S4, etl::span<int, 2>>) | unsigned(etl::is_constructible_v<SD, CSD>) << 1
+         | unsigned(etl::is_convertible_v<SD, S4>) << 2 | unsigned(etl::is_convertible_v<S4, SD>) << 3 | unsigned(etl::is_convertible_v<SD, CSD>) << 4
+         | unsigned(etl::is_constructible_v<S4, SD>) << 5 | unsigned(etl::is_constructible_v<HD, SD>) << 6 | unsigned(etl::is_convertible_v<S4, CS4>) << 7
+         | unsigned(etl::is_constructible_v<CS4, etl::span<int, 3>>) << 8 | unsigned(etl::is_convertible_v<S4, CSD>) << 9 | unsigned(etl::is_constructible_v<CS4, SD>) << 10
+         | unsigned(etl::is_convertible_v<SD, CS4>) << 11;
+}
+// further sources: array<T,N> const&, array<T,N>&, C arrays, for const / short element types
+VF_E void csd_ctor_ptr_n(CSD* out, int const* p, size_t n) { new (out) CSD(p, n); }
+VF_E void csd_ctor_ptr_n_nc(CSD* out, int* p, size_t n) { new (out) CSD(p, n); }
+VF_E void csd_ctor_carray(CSD* out, A4 const& a) { new (out) CSD(a); }
+VF_E void csd_ctor_array(CSD* out, A4& a) { new (out) CSD(a); }
+VF_E void csd_ctor_carr(CSD* out, int const (&a)[4]) { new (out) CSD(a); }
+VF_E void cs4_ctor_array(CS4* out, A4& a) { new (out) CS4(a); }
+VF_E void cs4_ctor_carr(CS4* out, int const (&a)[4]) { new (out) CS4(a); }
+VF_E void hd_ctor_ptr_n(HD* out, short* p, size_t n) { new (out) HD(p, n); }
+VF_E void hd_ctor_array(HD* out, AH4& a) { new (out) HD(a); }
+VF_E void hd_ctor_carr(HD* out, short (&a)[4]) { new (out) HD(a); }
+VF_E void h4_ctor_array(H4* out, AH4& a) { new (out) H4(a); }
+VF_E void h4_ctor_carr(H4* out, short (&a)[4]) { new (out) H4(a); }
+VF_E void chd_ctor_carray(CHD* out, AH4 const& a) { new (out) CHD(a); }
+VF_E void ch4_ctor_carray(CH4* out, AH4 const& a) { new (out) CH4(a); }
+VF_E size_t ctad_carray(int const** d, size_t* n, A4 const& a) { auto s = etl::span(a); return put(s, d, n); }
+VF_E size_t ctad_ccarr(int const** d, size_t* n, int const (&a)[4]) { auto s = etl::span(a); return put(s, d, n); }
+VF_E size_t ctad_harray(short** d, size_t* n, AH4& a) { auto s = etl::span(a); return put(s, d, n); }
+SPAN_OBS(csd, CSD, int const)
+SPAN_OBS(cs4, CS4, int const)
+SPAN_OBS(hd, HD, short)
+SPAN_OBS(h4, H4, short)
+SPAN_OBS(chd, CHD, short const)
+SPAN_T(csd, CSD, 0, int const) SPAN_T(csd, CSD, 2, int const) SPAN_T(cs4, CS4, 2, int const) SPAN_T(hd, HD, 2, short) SPAN_T(h4, H4, 2, short) SPAN_T(chd, CHD, 2, short const)
+SPAN_T2(csd, CSD, 1, 2, int const) SPAN_T2(cs4, CS4, 1, 2, int const) SPAN_T2(hd, HD, 1, 2, short) SPAN_T2(h4, H4, 1, 3, short) SPAN_T2(chd, CHD, 1, 2, short const)
+#define SPAN_BYTES(P, S) VF_E size_t P##_as_bytes(S const& s, unsigned char const** d, size_t* n) { auto r = etl::as_bytes(s); *d = reinterpret_cast<unsigned char const*>(r.data()); *n = r.size(); return decltype(r)::extent; }
+#define SPAN_WBYTES(P, S) VF_E size_t P##_as_wbytes(S const& s, unsigned char** d, size_t* n) { auto r = etl::as_writable_bytes(s); *d = reinterpret_cast<unsigned char*>(r.data()); *n = r.size(); return decltype(r)::extent; }
+SPAN_BYTES(csd, CSD) SPAN_BYTES(hd, HD) SPAN_BYTES(chd, CHD) SPAN_WBYTES(hd, HD)
 
 // ------------------------------------------------------------------ array<int,4> (C05 under the SAFE configuration)
 VF_E int* a4_index(A4& a, size_t i) { return &a[i]; }
@@ -154,6 +209,61 @@ template <typename M, typename E, typename S> static void ls_ctor(M* out, E cons
     using DM_lr##name = etl::layout_right::mapping<DE_##name>;
 #include "patterns.def"
 #undef VP
+// ---- conversion matrix: every pattern of patterns.def as the SOURCE of a converting constructor (index = position in patterns.def) ----
+// conv_from<Dst>(list, out, which, src): constructs Dst from the `which`-th source type if the library declares that conversion;
+// returns bit 0 = is_constructible (the object was constructed), bit 1 = is_convertible (the constructor is not explicit)
+template <typename... T> struct tl { };
+template <typename D, typename S> inline constexpr bool conv_ok = etl::is_constructible_v<D, S const&>;
+template <typename D> inline constexpr bool conv_ok<D, void> = false;   // list terminator
+// (one non-template body for all pairs without a conversion keeps the lowered translation unit small)
+static auto conv_go(etl::false_type /*no conversion*/, void* /*out*/, void const* /*src*/) -> unsigned { return 0U; }
+template <typename D, typename S> static auto conv_go(etl::true_type /*convertible*/, D* out, S const* src) -> unsigned { new (out) D(*src); return 1U | unsigned(etl::is_convertible_v<S const&, D>) << 1; }
+template <typename D, typename... S, size_t... Is> static auto conv_sel(tl<S...>, etl::index_sequence<Is...>, D* out, size_t which, void const* src) -> unsigned
+{
+    unsigned r = 0;
+    ((which == Is ? (void)(r = conv_go(etl::bool_constant<conv_ok<D, S>>{}, out, static_cast<S const*>(src))) : (void)0), ...);
+    return r;
+}
+template <typename D, typename... S> static auto conv_from(tl<S...> l, D* out, size_t which, void const* src) -> unsigned { return conv_sel(l, etl::make_index_sequence<sizeof...(S)>{}, out, which, src); }
+// heterogeneous comparison a == b with b of the `which`-th type of the list (same rank only: for different ranks operator== is `false` by definition); -1: not compared
+template <typename D, typename S> inline constexpr bool same_rank = D::extents_type::rank() == S::extents_type::rank();
+template <typename D> inline constexpr bool same_rank<D, void> = false;
+template <typename D> static auto eq_go(etl::false_type, D const& /*a*/, void const* /*b*/) -> int { return -1; }
+template <typename D, typename S> static auto eq_go(etl::true_type, D const& a, S const* b) -> int { return int(a == *b); }   // (b == a is the transposed pair of the matrix)
+template <typename D, typename... S, size_t... Is> static auto eq_sel(tl<S...>, etl::index_sequence<Is...>, D const& a, size_t which, void const* src) -> int
+{
+    int r = -1;
+    ((which == Is ? (void)(r = eq_go(etl::bool_constant<same_rank<D, S>>{}, a, static_cast<S const*>(src))) : (void)0), ...);
+    return r;
+}
+template <typename D, typename... S> static auto eq_with(tl<S...> l, D const& a, size_t which, void const* src) -> int { return eq_sel(l, etl::make_index_sequence<sizeof...(S)>{}, a, which, src); }
+template <typename I> struct pats {
+    using ext = tl<
+#define VP(name, R, A, B, C, sfx) typename mk<R, I>::template ext<A, B, C>,
+#include "patterns.def"
+#undef VP
+        void>;
+    using ll = tl<
+#define VP(name, R, A, B, C, sfx) etl::layout_left::mapping<typename mk<R, I>::template ext<A, B, C>>,
+#include "patterns.def"
+#undef VP
+        void>;
+    using lr = tl<
+#define VP(name, R, A, B, C, sfx) etl::layout_right::mapping<typename mk<R, I>::template ext<A, B, C>>,
+#include "patterns.def"
+#undef VP
+        void>;
+    template <typename T> using mll = tl<
+#define VP(name, R, A, B, C, sfx) etl::mdspan<T, typename mk<R, I>::template ext<A, B, C>, etl::layout_left>,
+#include "patterns.def"
+#undef VP
+        void>;
+    template <typename T> using mlr = tl<
+#define VP(name, R, A, B, C, sfx) etl::mdspan<T, typename mk<R, I>::template ext<A, B, C>, etl::layout_right>,
+#include "patterns.def"
+#undef VP
+        void>;
+};
 }
 #endif  // VF_PART >= 1
 
@@ -179,7 +289,9 @@ namespace vf {
     VF_E void name##_from_odex(E_##name* out, OE_##name const& o) { new (out) E_##name(o); }                           \
     VF_E void name##_to_odex(OE_##name* out, E_##name const& o) { new (out) OE_##name(o); }                            \
     VF_E size_t name##_fwd(E_##name const& e, size_t k) { return e.fwd_prod_of_extents(k); }                           \
-    VF_E size_t name##_rev(E_##name const& e, size_t k) { return e.rev_prod_of_extents(k); }
+    VF_E size_t name##_rev(E_##name const& e, size_t k) { return e.rev_prod_of_extents(k); }                           \
+    VF_E unsigned name##_conv_from(E_##name* out, size_t which, void const* src) { return conv_from(pats<IT>::ext{}, out, which, src); } \
+    VF_E unsigned name##_conv_from_o(E_##name* out, size_t which, void const* src) { return conv_from(pats<OT>::ext{}, out, which, src); }
 #include "patterns.def"
 #undef VP
 }
@@ -276,6 +388,53 @@ template <typename M> static auto md_flags(M const& m) -> unsigned {
 #undef VP
 }
 #endif  // VF_PART == 2 || VF_PART == 5
+
+#if VF_PART == 7
+namespace vf {
+// ---- conversion matrix of layout_left / layout_right mappings (own part: keeps the translation units of part 3 small) ----------------
+// _from: same layout, same index type; _from_o: same layout, source index type long; _from_x: the other layout (declared for rank <= 1)
+#define VLAY_CONV(name, P, X)                                                                                          \
+    VF_E unsigned name##_##P##_conv_from(M_##P##name* out, size_t which, void const* src) { return conv_from(pats<IT>::P{}, out, which, src); } \
+    VF_E unsigned name##_##P##_conv_from_o(M_##P##name* out, size_t which, void const* src) { return conv_from(pats<OT>::P{}, out, which, src); } \
+    VF_E unsigned name##_##P##_conv_from_x(M_##P##name* out, size_t which, void const* src) { return conv_from(pats<IT>::X{}, out, which, src); } \
+    VF_E IT name##_##P##_cv_stride(M_##P##name const& m, size_t k) { return stride_of(m, k); }                         \
+    VF_E int name##_##P##_eq_with(M_##P##name const& a, size_t which, void const* src) { return eq_with(pats<IT>::P{}, a, which, src); } \
+    VF_E int name##_##P##_eq_with_o(M_##P##name const& a, size_t which, void const* src) { return eq_with(pats<OT>::P{}, a, which, src); }
+#define VP(name, R, A, B, C, sfx) VLAY_CONV(name, ll, lr) VLAY_CONV(name, lr, ll)
+#include "patterns.def"
+#undef VP
+}
+#endif  // VF_PART == 7
+
+#if VF_PART == 8
+namespace vf {
+// ---- conversion matrix of mdspan over layout_left / layout_right (own part) ------------------------------------------------------------
+// converting constructor mdspan<T, Dst, L>(mdspan<U, Src, L> const&): the result is built over a null view, then read back through data_handle()/extent(r);
+// with ix != nullptr also the address of element (ix...) (rank 0: the data handle, see call_map_r)
+template <typename D, typename Lst> static auto md_conv(Lst l, size_t which, void const* src, typename D::element_type** ptr, IT* ext, IT const* ix, typename D::element_type** at) -> unsigned
+{
+    D d(static_cast<typename D::data_handle_type>(nullptr), typename D::mapping_type{});
+    auto const r = conv_from(l, &d, which, src);
+    if (r != 0) {
+        *ptr = d.data_handle();
+        for (size_t k = 0; k < D::rank(); ++k) { ext[k] = d.extent(k); }
+        if (ix != nullptr) {
+            if constexpr (D::rank() > 0) { *at = [&]<size_t... Is>(etl::index_sequence<Is...>) { return &d(ix[Is]...); }(etl::make_index_sequence<D::rank()>{}); }
+            else { *at = d.data_handle(); }
+        }
+    }
+    return r;
+}
+// _c: int -> int const; _o: int -> int const with source index type long; _drop_const: int const -> int (must not exist)
+#define VMD_CONV(name, P, L)                                                                                           \
+    VF_E unsigned name##_m##P##_conv_c(size_t which, void const* src, int const** ptr, IT* ext, IT const* ix, int const** at) { return md_conv<etl::mdspan<int const, E_##name, etl::L>>(pats<IT>::m##P<int>{}, which, src, ptr, ext, ix, at); } \
+    VF_E unsigned name##_m##P##_conv_o(size_t which, void const* src, int const** ptr, IT* ext, IT const* ix, int const** at) { return md_conv<etl::mdspan<int const, E_##name, etl::L>>(pats<OT>::m##P<int>{}, which, src, ptr, ext, ix, at); } \
+    VF_E unsigned name##_m##P##_conv_drop_const(size_t which, void const* src, int** ptr, IT* ext) { return md_conv<etl::mdspan<int, E_##name, etl::L>>(pats<IT>::m##P<int const>{}, which, src, ptr, ext, nullptr, ptr); }
+#define VP(name, R, A, B, C, sfx) VMD_CONV(name, ll, layout_left) VMD_CONV(name, lr, layout_right)
+#include "patterns.def"
+#undef VP
+}
+#endif  // VF_PART == 8
 
 #if VF_PART == 6
 namespace vf {
